@@ -98,6 +98,9 @@ type c12Obs struct {
 
 const c12Watchdog = 2 * time.Second
 
+// offset added to the logged restart identity when the restart reference carries the wrong block number (identities are < 500)
+const c12BadRefNum = 500
+
 var c12Points = map[string]int{
 	"eternal.after_check": 0, "eternal.after_factory": 1, "eternal.after_assign": 2, "eternal.inner_terminated": 3, "eternal.after_sleep": 4,
 	"joining.live_obtained": 10, "joining.live_registered": 11, "joining.file_obtained": 12, "joining.file_registered": 13,
@@ -129,6 +132,7 @@ type c12Ctx struct {
 	fired    chan struct{}
 	firedOne sync.Once
 	inners   []*c12Src
+	nums     sync.Map // block id -> block number, of every block given to the handler
 }
 
 func newC12Ctx(record bool) *c12Ctx {
@@ -201,6 +205,7 @@ func (c *c12Ctx) handler(inside func(n int), work func()) bstream.Handler {
 		src, _ := strconv.Atoi(blk.ParentId)
 		ok := !strings.HasSuffix(blk.Id, "f")
 		b := c12Ident(blk.Id)
+		c.nums.Store(blk.Id, blk.Number) // W1: the number each delivered block id carries (restart references are id AND number)
 		n := c.begin(src, b)
 		if inside != nil {
 			inside(n)
@@ -487,7 +492,18 @@ func c12ExecEternal(in *c12In) *c12Obs {
 		if in.Inj.Mode == "factory" && nfac == in.Inj.N {
 			inject()
 		}
-		ctx.add(c12Lev{K: "F", A: 0, B: c12Ident(ref.ID())})
+		// W1: a restart point is a block REFERENCE (id and number).  The log keeps one number per factory call: the identity
+		// of the referenced block, shifted by c12BadRefNum when the reference's number is not the number that block
+		// carried when it was given to the handler (0 for the empty reference) — such a value equals no accepted identity
+		rb := c12Ident(ref.ID())
+		wantNum := uint64(0)
+		if v, ok := ctx.nums.Load(ref.ID()); ok {
+			wantNum = v.(uint64)
+		}
+		if ref.Num() != wantNum {
+			rb += c12BadRefNum
+		}
+		ctx.add(c12Lev{K: "F", A: 0, B: rb})
 		var script []c12Ev
 		if nfac-1 < len(in.Supply) {
 			script = in.Supply[nfac-1]
